@@ -88,15 +88,18 @@ Proof.
   assert (Rtr : forall a b c, relB a b -> relB b c -> relB a c) by (intros a b c H1 H2 H; auto).
   destruct s as [x has_sub rhs loops | xs f args kwn |]; simpl.
   - pose proof (loops_rel C relB Rr Rtr Rt ph loops T) as HL.
+    match goal with |- context [raised C ?t] => destruct (raised C t); [exact I|] end.
     destruct has_sub; [split; [exact HL | exact I]|].
     match goal with |- context [kmap C reg ?g ?l rhs] => destruct (kmap C reg g l rhs) as [k|e] eqn:Ek end.
-    + split; [|exact I]. intros Hall. pose proof (HL Hall) as H1. apply tset_all_some; [exact H1|].
+    + match goal with |- context [raised C ?t] => destruct (raised C t); [exact I|] end.
+      split; [|exact I]. intros Hall. pose proof (HL Hall) as H1. apply tset_all_some; [exact H1|].
       eapply kmap_some; [exact Hpf | | | exact Hw | exact Ek].
       * apply H1.
       * destruct (alookup (sp T) ph); [apply H1 | apply nil_all_some].
     + destruct e; auto.
   - destruct (kcall reg f (map (kmap C reg (sg T) (local_of T ph)) args) kwn) as [ks|e].
-    + split; [|exact I]. apply (set_many_rel C relB Rr Rtr Rt).
+    + match goal with |- context [raised C ?t] => destruct (raised C t); [exact I|] end.
+      split; [|exact I]. apply (set_many_rel C relB Rr Rtr Rt).
     + destruct e; auto.
   - split; [apply Rr | exact I].
 Qed.
@@ -105,11 +108,15 @@ Lemma infer_all_some : forall C reg fo fi D forced T,
   pow_fix C = true -> wf_program D = true ->
   infer C reg fo fi D forced = Ok T -> all_some T.
 Proof.
-  intros C reg fo fi D forced T Hpf Hw H. unfold infer in H.
-  destruct (outer C reg fo fi D (apply_forced C forced init_table)) as [T1|e] eqn:E; [|discriminate].
-  destruct (final_check C reg T1 D); [discriminate|]. inversion H; subst T1. clear H.
+  intros C reg fo fi D forced T Hpf Hw H. destruct (infer_inv _ _ _ _ _ _ _ H) as [_ [E _]]. clear H.
   apply (outer_gen C reg relB (fun it => wf_stmt (snd it) = true) (fun _ _ => True)) in E.
   - destruct E as [HR _]. apply HR.
+    assert (Hl : forall T0, all_some T0 -> all_some (apply_loops C D T0)).
+    { unfold apply_loops. induction (items_of D) as [|[ph s] l IHl]; intros T0 H0; simpl; [exact H0|].
+      apply IHl. destruct s; simpl; try exact H0.
+      apply (loops_rel C relB (fun T H => H) (fun a b c H1 H2 H => H2 (H1 H))
+                       (fun T ph x k H => tset_all_some C T ph x (Some k) H ltac:(discriminate))); exact H0. }
+    apply Hl.
     assert (Hf : forall forced T0, all_some T0 -> all_some (apply_forced C forced T0)).
     { unfold apply_forced. induction forced0 as [|[[ph x] k] forced0 IH]; intros T0 H0; simpl; [exact H0|].
       apply IH. apply tset_all_some; [exact H0 | discriminate]. }
@@ -159,16 +166,16 @@ Qed.
 Definition wit_pow : program := [("ph", [SAssign "x" false (EPow (EVar "<t>") (EConst CInt)) []])].
 
 (* any configuration with the unchanged power rule in which "x" is not a global name *)
-Definition cfg_of (pw nm ia : bool) : cfg :=
-  mkCfg pw nm ia ["<t>"; "<dt>"] ["<state>"; "<p>"; "<ret_time_id>"; "<ret_time>"; "<ret_state>"].
+Definition cfg_of (pw nm ia cr : bool) : cfg :=
+  mkCfg pw nm ia cr ["<t>"; "<dt>"] ["<state>"; "<p>"; "<ret_time_id>"; "<ret_time>"; "<ret_state>"].
 
-Lemma every_assigned_refuted : forall nm ia,
-  exists T, infer (cfg_of false nm ia) builtin_reg (outer_fuel wit_pow) (inner_fuel wit_pow) wit_pow [] = Ok T /\
+Lemma every_assigned_refuted : forall nm ia cr,
+  exists T, infer (cfg_of false nm ia cr) builtin_reg (outer_fuel wit_pow) (inner_fuel wit_pow) wit_pow [] = Ok T /\
             wf_program wit_pow = true /\
             assigns (SAssign "x" false (EPow (EVar "<t>") (EConst CInt)) []) "x" /\
             lookup T "ph" "x" = Some None.
 Proof.
-  intros nm ia. destruct nm, ia; eexists; (split; [vm_compute; reflexivity|]); repeat split; reflexivity.
+  intros nm ia cr. destruct nm, ia, cr; eexists; (split; [vm_compute; reflexivity|]); repeat split; reflexivity.
 Qed.
 
 (* ================================================================== with the repaired `set`: the final table is stable *)
@@ -308,10 +315,12 @@ Proof.
   destruct s as [x has_sub rhs loops | xs f args kwn |]; simpl.
   - pose proof (loops_rel C relC relC_refl relC_trans Rt ph loops T) as HL.
     set (T1 := fold_left (fun T i => tset C T ph i (Some KInt)) loops T) in *.
+    destruct (raised C T1); [exact I|].
     destruct has_sub; [split; [exact HL | intros _; exact I]|].
     destruct (kmap C reg (sg T1) match alookup (sp T) ph with Some _ => local_of T1 ph | None => [] end rhs)
       as [k|e] eqn:Ek.
-    + split; [eapply relC_trans; [exact HL | apply relC_tset; exact Hnm]|].
+    + destruct (raised C (tset C T1 ph x k)); [exact I|].
+      split; [eapply relC_trans; [exact HL | apply relC_tset; exact Hnm]|].
       intros [Hc Hn]. unfold stable_item. simpl.
       destruct (tset_unchanged C T1 ph x k Hnm Hc) as [Hs12 [Hc1 Hst]].
       pose proof (tset_conf_mono C T1 ph x k) as Hle.
@@ -330,7 +339,8 @@ Proof.
         -- eapply stable_entry_content; [exact Hs12|]. apply Hst. lia.
     + destruct e; auto.
   - destruct (kcall reg f (map (kmap C reg (sg T) (local_of T ph)) args) kwn) as [ks|e] eqn:Ek.
-    + split; [apply (set_many_rel C relC relC_refl relC_trans Rt)|].
+    + destruct (raised C (set_many C T ph xs ks)); [exact I|].
+      split; [apply (set_many_rel C relC relC_refl relC_trans Rt)|].
       intros [Hc Hn]. unfold stable_item. simpl.
       destruct (set_many_stable C ph xs ks T Hnm Hc Hn) as [Hs [Hc0 [Hn0 Hz]]].
       exists ks. destruct Hs as [Hg Hp].
@@ -361,9 +371,7 @@ Theorem infer_stable : forall C reg fo fi D forced T,
   new_marks C = true -> infer C reg fo fi D forced = Ok T -> sconf T = 0 ->
   forall it, In it (items_of D) -> stable_item C reg T it.
 Proof.
-  intros C reg fo fi D forced T Hnm H Hn it Hin. unfold infer in H.
-  destruct (outer C reg fo fi D (apply_forced C forced init_table)) as [T1|e] eqn:E; [|discriminate].
-  destruct (final_check C reg T1 D); [discriminate|]. inversion H; subst T1. clear H.
+  intros C reg fo fi D forced T Hnm H Hn it Hin. destruct (infer_inv _ _ _ _ _ _ _ H) as [_ [E _]]. clear H.
   destruct (outer_last _ _ _ _ _ _ _ E) as [T0 [Ei Hc]].
   apply (inner_gen C reg relC (fun _ => True) (postC C reg) relC_refl relC_trans) in Ei.
   - destruct Ei as [_ HP]. apply HP; [|split; assumption].
@@ -424,9 +432,7 @@ Proof.
   intros C reg fo fi D forced T Hnm Hinit H Hn Hsides.
   pose proof (infer_stable C reg fo fi D forced T Hnm H Hn) as Hst.
   destruct (infer_keys C reg fo fi D forced T Hinit H) as [Hwf _].
-  assert (Hfc : final_check C reg T D = None).
-  { unfold infer in H. destruct (outer C reg fo fi D (apply_forced C forced init_table)) as [T1|]; [|discriminate].
-    destruct (final_check C reg T1 D) eqn:E; [discriminate|]. inversion H; subst. exact E. }
+  assert (Hfc : final_check C reg T D = None) by (apply (infer_inv _ _ _ _ _ _ _ H)).
   unfold strict, sides in *. rewrite forallb_forall in *. intros [ph stmts] HD. simpl.
   specialize (Hsides (ph, stmts) HD). simpl in Hsides. rewrite forallb_forall in *. intros s Hs.
   specialize (Hsides s Hs).
@@ -535,11 +541,13 @@ Qed.
 
 (* ================================================================== the unrestricted statement is false for every shape *)
 
-(* x <- <t> > 1 and x <- <t> + 1 in one phase: unify raises, the message is printed and ignored, x keeps
-   the kind of the statement visited first (Scalar); running the other statement stores a flag *)
+(* a <- array(n); x <- a; x <- <t> in one phase: unify lets the Array absorb the Scalar, x: Array; running
+   x <- <t> stores a real number.  (Before `set` re-raised a failing unify, x <- <t> > 1; x <- <t> + 1 was
+   a second witness: the conflict was printed and ignored.) *)
 Definition wit_mixed : program :=
-  [("ph", [SAssign "x" false (ECmp true (EVar "<t>") (EConst CInt)) [];
-           SAssign "x" false (ESum [EVar "<t>"; EConst CInt]) []])].
+  [("ph", [SCall ["a"] "<builtin>array" [EConst CInt] [];
+           SAssign "x" false (EVar "a") [];
+           SAssign "x" false (EVar "<t>") []])].
 
 Definition keep_std : string -> bool := keep_of ["<t>"; "<dt>"] ["<state>"; "<p>"].
 
@@ -552,24 +560,26 @@ Proof.
   apply String.eqb_eq in E. subst x. inversion Hx; subst. exists (KScalar true). split; [exact Hl | reflexivity].
 Qed.
 
-Lemma soundness_full_refuted : forall pw nm ia,
-  let C := cfg_of pw nm ia in
+Lemma soundness_full_refuted : forall pw nm ia cr,
+  let C := cfg_of pw nm ia cr in
   exists T st,
     infer C builtin_reg (outer_fuel wit_mixed) (inner_fuel wit_mixed) wit_mixed [] = Ok T /\
+    sconf T = 0 /\
     store_ok T "ph" [("<t>", CReal)] /\
     creach C builtin_reg wit_mixed keep_std "ph" [("<t>", CReal)] "ph" st /\
     ~ store_ok T "ph" st.
 Proof.
-  intros pw nm ia C.
+  intros pw nm ia cr C.
   pose proof (fun T => store_ok_t T "ph") as H0.
-  destruct pw, nm, ia;
-    (eexists; exists (cset [("<t>", CReal)] "x" CBool);
+  destruct pw, nm, ia, cr;
+    (eexists; exists (cset [("<t>", CReal)] "x" CReal);
      split; [vm_compute; reflexivity|];
+     split; [reflexivity|];
      split; [apply H0; reflexivity|];
      split;
-     [eapply cr_stmt with (s := SAssign "x" false (ECmp true (EVar "<t>") (EConst CInt)) []);
-      [apply cr_refl | left; reflexivity | left; reflexivity | reflexivity | right; left; reflexivity]
-     | intros Hbad; destruct (Hbad "x" CBool eq_refl) as [k [Hl Hh]];
+     [eapply cr_stmt with (s := SAssign "x" false (EVar "<t>") []);
+      [apply cr_refl | left; reflexivity | right; right; left; reflexivity | reflexivity | right; left; reflexivity]
+     | intros Hbad; destruct (Hbad "x" CReal eq_refl) as [k [Hl Hh]];
        vm_compute in Hl; inversion Hl; subst k; discriminate Hh]).
 Qed.
 
@@ -579,8 +589,8 @@ Definition wit_stale : program :=
   [("ph", [SCall ["a"] "<builtin>array" [EConst CInt] [];
            SAssign "x" false (ESum [EConst CInt; EVar "a"]) []])].
 
-Lemma soundness_refuted_stale : forall pw ia,
-  let C := cfg_of pw false ia in
+Lemma soundness_refuted_stale : forall pw ia cr,
+  let C := cfg_of pw false ia cr in
   exists T st,
     infer C builtin_reg (outer_fuel wit_stale) (inner_fuel wit_stale) wit_stale [] = Ok T /\
     sconf T = 0 /\ sides C builtin_reg wit_stale T = true /\
@@ -588,9 +598,9 @@ Lemma soundness_refuted_stale : forall pw ia,
     creach C builtin_reg wit_stale keep_std "ph" [("<t>", CReal)] "ph" st /\
     ~ store_ok T "ph" st.
 Proof.
-  intros pw ia C.
+  intros pw ia cr C.
   pose proof (fun T => store_ok_t T "ph") as H0.
-  destruct pw, ia;
+  destruct pw, ia, cr;
     (eexists; exists (cset (cset [("<t>", CReal)] "a" (CArr true)) "x" (CArr true));
      split; [vm_compute; reflexivity|];
      split; [reflexivity|];
@@ -618,7 +628,7 @@ Definition ex_prog : program :=
    ("q", [SAssign "<p>s" false (EProd [EVar "<dt>"; EConst CComplex]) []])].
 
 Definition ex_reg : registry := builtin_reg ++ [("<func>f", FRhs "y" ["y"] ["y"])].
-Definition ex_cfg : cfg := cfg_of true true true.
+Definition ex_cfg : cfg := cfg_of true true true true.
 
 (* the hypotheses of every_assigned and of soundness hold for a program with calls, loops, a power, an
    element store, two phases and persistent variables; the sum is an Array although it is visited first *)
@@ -666,8 +676,109 @@ Definition full_soundness (C : cfg) (keep : string -> bool) : Prop :=
     forall ph0 st0 ph st,
       store_ok T ph0 st0 -> creach C reg D keep ph0 st0 ph st -> store_ok T ph st.
 
-Lemma full_soundness_false : forall pw nm ia, ~ full_soundness (cfg_of pw nm ia) keep_std.
+Lemma full_soundness_false : forall pw nm ia cr, ~ full_soundness (cfg_of pw nm ia cr) keep_std.
 Proof.
-  intros pw nm ia H. destruct (soundness_full_refuted pw nm ia) as [T [st [Hi [H0 [Hr Hbad]]]]].
+  intros pw nm ia cr H. destruct (soundness_full_refuted pw nm ia cr) as [T [st [Hi [_ [H0 [Hr Hbad]]]]]].
   apply Hbad. eapply H; eauto.
+Qed.
+
+(* ================================================================== with the re-raising `set`: success means no conflict *)
+
+Definition relI (T T' : skt) : Prop := (sexn T = None <-> sconf T = 0) -> (sexn T' = None <-> sconf T' = 0).
+Definition relR (C : cfg) (T T' : skt) : Prop := raised C T = None -> raised C T' = None.
+
+Lemma procI : forall C reg T ph s,
+  match proc_stmt C reg T ph s with
+  | SDone T' _ => relI T T' /\ True
+  | SRetry T' => relI T T'
+  | SFail _ => True
+  end.
+Proof.
+  intros C reg T ph s.
+  assert (Rt : forall T ph x k, relI T (tset C T ph x (Some k))) by (intros; intro; apply tset_exn_conf; assumption).
+  assert (Rr : forall T, relI T T) by (intros T0 H; exact H).
+  assert (Rtr : forall a b c, relI a b -> relI b c -> relI a c) by (intros a b c H1 H2 H; auto).
+  destruct s as [x has_sub rhs loops | xs f args kwn |]; simpl.
+  - pose proof (loops_rel C relI Rr Rtr Rt ph loops T) as HL.
+    match goal with |- context [raised C ?t] => destruct (raised C t); [exact I|] end.
+    destruct has_sub; [split; [exact HL | exact I]|].
+    match goal with |- context [kmap C reg ?g ?l rhs] => destruct (kmap C reg g l rhs) as [k|e] end.
+    + match goal with |- context [raised C ?t] => destruct (raised C t); [exact I|] end.
+      split; [|exact I]. eapply Rtr; [exact HL|]. intro. apply tset_exn_conf. assumption.
+    + destruct e; auto.
+  - destruct (kcall reg f (map (kmap C reg (sg T) (local_of T ph)) args) kwn) as [ks|e].
+    + match goal with |- context [raised C ?t] => destruct (raised C t); [exact I|] end.
+      split; [|exact I]. apply (set_many_rel C relI Rr Rtr Rt).
+    + destruct e; auto.
+  - split; [apply Rr | exact I].
+Qed.
+
+Lemma procR : forall C reg T ph s,
+  match proc_stmt C reg T ph s with
+  | SDone T' _ => relR C T T' /\ True
+  | SRetry T' => relR C T T'
+  | SFail _ => True
+  end.
+Proof.
+  intros C reg T ph s. unfold relR.
+  destruct s as [x has_sub rhs loops | xs f args kwn |]; simpl.
+  - match goal with |- context [raised C ?t] => destruct (raised C t) eqn:E1; [exact I|] end.
+    destruct has_sub; [split; auto|].
+    match goal with |- context [kmap C reg ?g ?l rhs] => destruct (kmap C reg g l rhs) as [k|e] end.
+    + match goal with |- context [raised C ?t] => destruct (raised C t) eqn:E2; [exact I|] end. split; auto.
+    + destruct e; auto.
+  - destruct (kcall reg f (map (kmap C reg (sg T) (local_of T ph)) args) kwn) as [ks|e].
+    + match goal with |- context [raised C ?t] => destruct (raised C t) eqn:E2; [exact I|] end. split; auto.
+    + destruct e; auto.
+  - split; auto.
+Qed.
+
+Theorem infer_no_conflict : forall C reg fo fi D forced T,
+  conflict_raises C = true -> infer C reg fo fi D forced = Ok T -> sconf T = 0.
+Proof.
+  intros C reg fo fi D forced T Hcr H. destruct (infer_inv _ _ _ _ _ _ _ H) as [H0 [E _]].
+  assert (HI : sexn T = None <-> sconf T = 0).
+  { pose proof E as E'.
+    apply (outer_gen C reg relI (fun _ => True) (fun _ _ => True)) in E'.
+    - destruct E' as [HR _]. apply HR.
+      assert (Rt : forall T ph x k, relI T (tset C T ph x (Some k))) by (intros; intro; apply tset_exn_conf; assumption).
+      assert (Hl : forall T0, (sexn T0 = None <-> sconf T0 = 0) ->
+                              (sexn (apply_loops C D T0) = None <-> sconf (apply_loops C D T0) = 0)).
+      { unfold apply_loops. induction (items_of D) as [|[ph s] l IHl]; intros T0 HT0; simpl; [exact HT0|].
+        apply IHl. destruct s; simpl; try exact HT0.
+        apply (loops_rel C relI (fun T H => H) (fun a b c H1 H2 H => H2 (H1 H)) Rt); exact HT0. }
+      apply Hl.
+      assert (Hf : forall forced T0, (sexn T0 = None <-> sconf T0 = 0) ->
+                                     (sexn (apply_forced C forced T0) = None <-> sconf (apply_forced C forced T0) = 0)).
+      { unfold apply_forced. induction forced0 as [|[[ph x] k] forced0 IHf]; intros T0 HT0; simpl; [exact HT0|].
+        apply IHf. apply tset_exn_conf. exact HT0. }
+      apply Hf. simpl. split; reflexivity.
+    - intros T0 HT0. exact HT0.
+    - intros a b c H1 H2 HH. auto.
+    - intros T0 ph s _. apply procI.
+    - auto.
+    - intros T0 HT0. exact HT0.
+    - auto. }
+  apply HI.
+  apply (outer_gen C reg (relR C) (fun _ => True) (fun _ _ => True)) in E.
+  - destruct E as [HR _]. specialize (HR H0). unfold raised in HR. rewrite Hcr in HR. exact HR.
+  - intros T0 HT0. exact HT0.
+  - intros a b c H1 H2 HH. auto.
+  - intros T0 ph s _. apply procR.
+  - auto.
+  - intros T0 HT0. exact HT0.
+  - auto.
+Qed.
+
+(* C09, second part (partial) for the tree where `set` re-raises: success already implies that no
+   conflict message was printed *)
+Theorem soundness_raises : forall C reg fo fi D forced T keep,
+  new_marks C = true -> conflict_raises C = true -> init_twf C ->
+  (forall x, keep x = true -> is_state C x = true) ->
+  infer C reg fo fi D forced = Ok T -> sides C reg D T = true ->
+  forall ph0 st0 ph st,
+    store_ok T ph0 st0 -> creach C reg D keep ph0 st0 ph st -> store_ok T ph st.
+Proof.
+  intros C reg fo fi D forced T keep Hnm Hcr Hinit Hk H Hs.
+  eapply soundness; eauto. eapply infer_no_conflict; eauto.
 Qed.
